@@ -10,8 +10,8 @@ mod methods {
         arg
     }
 
-    fn uint(arg: i64) -> u64 {
-        arg as u64
+    fn uint(arg: i64) -> CelResult<u64> {
+        u64::try_from(arg).map_err(|_| CelError::value(&format!("{} is out of range for uint", arg)))
     }
 
     fn uint(arg: f64) -> u64 {
